@@ -56,7 +56,8 @@ def search(ctx, info, sysd, broken, log, n, steps):
     distinguishing (state, choices) of a label is reported as a failure with the walk as replay"""
     cw = corpus_walks(sysd["name"])
     rnds = [c["rnd"][:8 + 6 * steps] + [0] * max(0, 8 + 6 * steps - len(c["rnd"])) for c in cw] + rnd_lists(ctx.rng, n, steps)
-    mm, cover, err = G.run_walks(info, rnds, steps, log)
+    focus = [".".join(b.split(".")[1:]) for b in sorted(broken)]       # "process.label"
+    mm, cover, err = G.run_walks(info, rnds, steps, log, focus)
     if err:
         ctx.notes.append("differential walk of %s: %s" % (sysd["name"], err[:300]))
     seen = set()
@@ -140,7 +141,7 @@ def run(ctx):
                 ctx.failures.append({"signature": "step-differs:%s.%s.%s" % (sysd["name"], m.get("process"), m.get("label")),
                                      "what": "replayed walk still distinguishes the two models", "case": case, "obs": m.get("go"), "exp": m.get("tla")})
         elif walkable and (broken or st["differential_only"] or corpus_walks(sysd["name"]) or ctx.tier == "thorough"):
-            n, steps = ((40 if broken else 8), 120) if ctx.tier == "quick" else (300, 300)
+            n, steps = ((30, 300) if broken else (8, 120)) if ctx.tier == "quick" else (300, 300)
             cover, err = search(ctx, info, sysd, broken, log, n, steps)
             st["differential_walk"] = {"walks": n, "max_steps": steps, "committed_steps_per_label": cover, "error": err}
         per_system[sysd["name"]] = st
